@@ -86,16 +86,16 @@ theorem seed_holds (ss ss' : Fields) (hk : plainEqualities ss = true)
     (discardOps (.doc ss')).1 = .doc (keep ss' []) ∧ HoldsAll ss (keep ss' []) := by
   refine ⟨seed_is_keep ss' hp, ?_⟩
   intro kv hm
-  obtain ⟨_, _, _, h4⟩ := plainEq_entry hk hm
+  obtain ⟨_, _, h4⟩ := plainEq_entry hk hm
   rw [dget_keep kv.1 kv.2 ss' [] hd (hs kv hm), discardOps_scalar kv.2 h4]; rfl
 
 theorem plainEq_nodollar {ss : Fields} (hk : plainEqualities ss = true) :
     ∀ kv ∈ ss, kv.1.startsWith "$" = false :=
-  fun kv hm => (plainEq_entry hk hm).2.2.1
+  fun kv hm => (plainEq_entry hk hm).2.1
 
 theorem plainEq_nodot {ss : Fields} (hk : plainEqualities ss = true) :
     ∀ kv ∈ ss, kv.1.toList.contains '.' = false :=
-  fun kv hm => (plainEq_entry hk hm).2.1
+  fun kv hm => (plainEq_entry hk hm).1
 
 theorem nodollar_dset (ss : Fields) (k : String) (x : Val) (hk : k.startsWith "$" = false)
     (hp : ∀ kv ∈ ss, kv.1.startsWith "$" = false) :
@@ -134,20 +134,33 @@ theorem nodot_dset (ss : Fields) (k : String) (x : Val) (hk : k.toList.contains 
 theorem id_nodollar : ("_id" : String).startsWith "$" = false := by decide +kernel
 theorem id_nodot : ("_id" : String).toList.contains '.' = false := by decide +kernel
 
-/-- **the seed satisfies the filter** — the seed proper, and the seed with an `_id` added -/
-theorem seed_matches_filter (ss : Fields) (hk : plainEqualities ss = true) (hd : (dkeys ss).Nodup) :
-    expandDots ss = .ok ss ∧
-    filterApplies (.doc ss) (discardOps (.doc ss)).1 = .ok true ∧
-    (∀ idv, dget "_id" ss = none →
-      expandDots (dset "_id" idv ss) = .ok (dset "_id" idv ss) ∧
-      filterApplies (.doc ss) (discardOps (.doc (dset "_id" idv ss))).1 = .ok true) := by
-  refine ⟨expandDots_plain ss (plainEq_nodot hk) hd, ?_, ?_⟩
-  · obtain ⟨h1, h2⟩ := seed_holds ss ss hk (plainEq_nodollar hk) hd (holdsAll_self ss hd)
-    rw [h1]; exact holds_matches ss _ hk h2
-  · intro idv hn
-    obtain ⟨ha, hb⟩ := holdsAll_dset ss "_id" idv hd hn
-    refine ⟨expandDots_plain _ (nodot_dset ss _ _ id_nodot (plainEq_nodot hk)) hb, ?_⟩
-    obtain ⟨h1, h2⟩ := seed_holds ss _ hk (nodollar_dset ss _ _ id_nodollar (plainEq_nodollar hk)) hb ha
-    rw [h1]; exact holds_matches ss _ hk h2
+/-- the seed of a plain-equality filter, whatever `_id` is chosen (the filter's own when it has
+    one): the upsert seed exists and holds every pair of the filter -/
+theorem seed_any_id (ss : Fields) (hk : plainEqualities ss = true) (hd : (dkeys ss).Nodup)
+    (idv : Val) (hid : ∀ v, dget "_id" ss = some v → idv = v) :
+    ∃ sf, upsertSeed ss idv = .ok (.doc sf) ∧ HoldsAll ss sf := by
+  have hplain : ∀ kv ∈ dset "_id" idv ss,
+      kv.1.toList.contains '.' = false ∧ kv.1.startsWith "$" = false := fun kv hm =>
+    ⟨nodot_dset ss _ _ id_nodot (plainEq_nodot hk) kv hm,
+     nodollar_dset ss _ _ id_nodollar (plainEq_nodollar hk) kv hm⟩
+  refine ⟨_, upsertSeed_plain ss idv hplain, ?_⟩
+  cases hg : dget "_id" ss with
+  | some v =>
+    rw [hid v hg, dset_same hg]
+    exact (seed_holds ss ss hk (plainEq_nodollar hk) hd (holdsAll_self ss hd)).2
+  | none =>
+    obtain ⟨ha, hb⟩ := holdsAll_dset ss "_id" idv hd hg
+    exact (seed_holds ss _ hk (nodollar_dset ss _ _ id_nodollar (plainEq_nodollar hk)) hb ha).2
+
+/-- **the seed satisfies the filter**: for a filter of plain equality conditions with distinct
+    keys (the empty field name included), whatever `_id` the upsert chooses — the filter's own, or
+    any value when the filter has none — the seed is built without error and is matched by the
+    filter -/
+theorem seed_matches_filter (ss : Fields) (hk : plainEqualities ss = true) (hd : (dkeys ss).Nodup)
+    (idv : Val) (hid : ∀ v, dget "_id" ss = some v → idv = v) :
+    ∃ sf, upsertSeed ss idv = .ok (.doc sf) ∧ HoldsAll ss sf ∧
+      filterApplies (.doc ss) (.doc sf) = .ok true := by
+  obtain ⟨sf, h1, h2⟩ := seed_any_id ss hk hd idv hid
+  exact ⟨sf, h1, h2, holds_matches ss sf hk h2⟩
 
 end MongoModel.Proofs.C13Ext
